@@ -113,9 +113,11 @@ Appendable(c, h) ==
   LET l == Last(c.smp) IN
   IF Gauge(h) THEN
      [ok |-> c.hdr = "G" /\ (h.st \/ (~l.st /\ Layout(h) = Layout(l))), hdr |-> "G", reset |-> FALSE]
-  ELSE IF c.hdr = "G"          THEN [ok |-> FALSE, hdr |-> "N", reset |-> FALSE]
+  \* order of the tests after the repair of KF-C11-1: explicit reset hint, staleness (a stale marker is
+  \* always appendable, also to a gauge chunk: it is read back without the gauge hint), gauge header
   ELSE IF h.hi = "R"           THEN [ok |-> FALSE, hdr |-> "R", reset |-> TRUE]
   ELSE IF h.st                 THEN [ok |-> TRUE,  hdr |-> "N", reset |-> FALSE]
+  ELSE IF c.hdr = "G"          THEN [ok |-> FALSE, hdr |-> "N", reset |-> FALSE]
   ELSE IF l.st                 THEN [ok |-> FALSE, hdr |-> "U", reset |-> FALSE]
   ELSE IF Cnt(h) < Cnt(l)      THEN [ok |-> FALSE, hdr |-> "R", reset |-> TRUE]
   ELSE IF h.s # l.s \/ h.z # l.z THEN [ok |-> FALSE, hdr |-> "U", reset |-> FALSE]
@@ -308,7 +310,7 @@ ChunkUniform == \A k \in 1..Len(io) : \A i, j \in 1..Len(io[k].smp) :
   IN /\ a.ty = io[k].ty
      /\ (~a.st /\ ~b.st) => (Layout(a) = Layout(b) /\ a.P = b.P /\ a.N = b.N)
      /\ (io[k].hdr # "G" /\ i + 1 = j /\ ~b.st) => Sound(a, b)
-     /\ (io[k].hdr = "G") = Gauge(a)
+     /\ ~a.st => ((io[k].hdr = "G") = Gauge(a))           \* (a stale marker of any kind may close a chunk)
 
 \* C12 on the design: whatever a full read returns as "not a counter reset" is sound
 HintSound == LET r == Result IN
